@@ -45,6 +45,8 @@ def norm(x):
         x = float(x)
         if math.isnan(x):
             return NAN
+        if math.isinf(x):
+            return ('inf', x > 0)
         if x == int(x) and abs(x) < 2 ** 53:
             return int(x)  # 1.0 and 1 compare equal as cells; dtype is compared separately
         return x
